@@ -26,8 +26,11 @@ MANIFEST = dict(
           "every builder configuration and formatter, feeding the events of the rendered text to the mirror of bs4's parser side "
           "(handle_starttag/startendtag/endtag with already_closed_empty_element, endData whitespace rule, string containers, "
           "_popToTag, cdata-list attributes) builds exactly normaliseL — adjacent text merged, whitespace-only runs normalised, "
-          "newline text after a doctype, attributes sorted/None->''/multi-valued split (reparse_roundtrip); unrestricted "
-          "idempotence of the normal form is refuted by a decided witness (doctype_text_not_fixpoint = known finding). "
+          "newline text after a doctype, attributes sorted/None->''/multi-valued split (reparse_roundtrip); the second re-parse "
+          "builds normalise(normalise t), so the second round trip is a fixpoint iff the executable normal form is idempotent at t "
+          "(second_roundtrip, second_roundtrip_fixpoint_iff; evaluated per case); the whitespace rule is idempotent (wsRule_idem) and "
+          "chunking of character data is irrelevant (txt_chunking); unrestricted idempotence of the normal form is refuted by a "
+          "decided witness (doctype_text_not_fixpoint = known finding). "
           "Tie: differential runs on parsed and API-built/edited trees of both flavours under all registry formatters, every element "
           "as start; the real html.parser event stream of the real rendered text against emitR; the real re-parse against "
           "build/normaliseL; independent Python oracle of the round trip, the second round trip, the empty-element rule and "
@@ -97,6 +100,8 @@ def struct(node):
     if isinstance(node, e["Tag"]):
         attrs = []
         for k, v in (node.attrs or {}).items():
+            if isinstance(v, e["el"].AttributeValueWithCharsetSubstitution):
+                raise ValueError("charset substitution value (C08's subject)")
             if v is None:
                 attrs.append((str(k), None))
             elif isinstance(v, (list, tuple)):
@@ -970,9 +975,21 @@ def oracle_direct(ctx, recipe, els, stream):
 
 def classify_roundtrip(forest, got, xml):
     """known-finding classifier for a first-round-trip difference, computed from the case itself"""
-    if has_class(forest, "Declaration") and got == o_normalise(forest, decl_as_pi=True):
+    if has_class(forest, "Declaration") and (got == o_normalise(forest, decl_as_pi=True) or decl_with_gt(forest)):
         return "C05-declaration-renders-as-pi"
     return None
+
+
+def decl_with_gt(forest):
+    """a Declaration whose text contains '>': written as '<?' + text + '?>' it ends at that '>' and the rest of its text is
+    tokenised as markup — the same finding, with an outcome that depends on the text"""
+    for st in forest:
+        if st[0] == "S":
+            if st[1] == "Declaration" and ">" in st[2]:
+                return True
+        elif decl_with_gt(st[6]):
+            return True
+    return False
 
 
 def roundtrip_checks(ctx, batch, recipe, root, el_index, el, stream, parsed):
@@ -1018,7 +1035,8 @@ def roundtrip_checks(ctx, batch, recipe, root, el_index, el, stream, parsed):
             fix_ok = text3 == text2 and got3 == got
             ctx.count("oracle:second-roundtrip")
             if not fix_ok:
-                kf = "C05-doctype-newline-accumulates" if o_doctype_unstable(forest) else None
+                kf = "C05-doctype-newline-accumulates" if o_doctype_unstable(forest) else (
+                    "C05-declaration-renders-as-pi" if decl_with_gt(forest) else None)
                 ctx.violation("a second round trip changes the document", case=case, expected=text2, observed=text3,
                               stream=stream, kf=kf, extra={"rendered": text})
             elif o_doctype_unstable(forest):
@@ -1089,8 +1107,8 @@ def check_tree(ctx, batch, recipe, stream, parsed, sub_elements=2, r=None):
         raise
     try:
         st_root = struct(root)
-    except ValueError:
-        ctx.count("skipped:unknown-class")
+    except ValueError as ex:
+        ctx.count("skipped:" + ("meta-charset-substitution(C08)" if "charset" in str(ex) else "unknown-class"))
         return
     ctx.count(f"{stream}:size:{min(size(st_root) // 5 * 5, 30)}+")
     els = render_checks(ctx, batch, recipe, root, st_root, stream)
